@@ -83,6 +83,13 @@ MUTANTS = [
         results = sorted(self._hits, key=lambda t: (t.start, -t.end))
 
         for hit in results:""")]),
+    ("c09-busy-flag-no-finally", "C09", [(M + "multidecoder.py", '''        return self.scan_node(Node("", data, "", 0, len(data)), depth_limit)''', '''        if getattr(self, "_busy", False):
+            # re-entrant call (a decoder calling back into the scanner): do not recurse
+            return Node("", data, "", 0, len(data))
+        self._busy = True
+        tree = self.scan_node(Node("", data, "", 0, len(data)), depth_limit)
+        self._busy = False
+        return tree''')]),
     # ---------------- C18
     ("c18-exclude-inverted", "C18", [(M + "registry.py", "if exclude and submod_info.name in exclude:", "if exclude and submod_info.name not in exclude:")]),
     ("c18-include-only-without-exclude", "C18", [(M + "registry.py", "if include and submod_info.name not in include:", "if include and not exclude and submod_info.name not in include:")]),
@@ -117,6 +124,33 @@ MUTANTS = [
 ]
 
 
+# Changes under which the property still HOLDS: every check must stay silent (exit 0).
+BENIGN = [
+    ("benign-fd-level-reader", "C20", [(M + "__main__.py", "        data = sys.stdin.buffer.read()", "        chunks = []\n        while True:\n            chunk = os.read(0, 65536)\n            if not chunk:\n                break\n            chunks.append(chunk)\n        data = b\"\".join(chunks)")]),
+    ("benign-fd-level-writer", "C20", [(M + "__main__.py", "        sys.stdout.buffer.write(squash_replace(data, tree.children))", "        out = memoryview(squash_replace(data, tree.children))\n        sys.stdout.flush()\n        with open(sys.stdout.fileno(), \"wb\", buffering=0, closefd=False) as raw:\n            while out:\n                out = out[raw.write(out):]")]),
+    ("benign-json-indent", "C20", [(M + "__main__.py", "print(tree_to_json(tree))", "print(tree_to_json(tree, indent=1))")]),
+    ("benign-replace-via-flatten", "C20", [(M + "__main__.py", "sys.stdout.buffer.write(squash_replace(data, tree.children))", "sys.stdout.buffer.write(tree.flatten())")]),
+    ("benign-threadpool-ordered", "C09", [(M + "multidecoder.py", "from multidecoder.node import Node\n", "from concurrent.futures import ThreadPoolExecutor\n\nfrom multidecoder.node import Node\n"),
+        (M + "multidecoder.py", """        results = sorted(
+            (hit for search in self.decoders for hit in search(node.value) if hit.value),
+            key=lambda t: (t.start, -t.end),
+        )""", """        with ThreadPoolExecutor(max_workers=4) as pool:
+            futures = [pool.submit(search, node.value) for search in self.decoders]
+            results = sorted(
+                (hit for future in futures for hit in future.result() if hit.value),
+                key=lambda t: (t.start, -t.end),
+            )""")]),
+    ("benign-scan-lock", "C09", [(M + "multidecoder.py", "from multidecoder.node import Node\n", "import threading\n\nfrom multidecoder.node import Node\n"),
+        (M + "multidecoder.py", "        self.decoders = decoders if decoders else build_registry()\n", "        self.decoders = decoders if decoders else build_registry()\n        self._lock = threading.RLock()\n"),
+        (M + "multidecoder.py", '''        return self.scan_node(Node("", data, "", 0, len(data)), depth_limit)''', '''        with self._lock:
+            return self.scan_node(Node("", data, "", 0, len(data)), depth_limit)''')]),
+    ("benign-keyword-cache-copied", "C09", [(M + "registry.py", "def get_keywords(directory: str = \"\") -> Registry:\n    \"\"\"Get keyword search functions from a directory\"\"\"\n", "_KEYWORD_CACHE: dict = {}\n\n\ndef get_keywords(directory: str = \"\") -> Registry:\n    \"\"\"Get keyword search functions from a directory\"\"\"\n    key = os.path.realpath(directory) if directory else \"\"\n    if key not in _KEYWORD_CACHE:\n        _KEYWORD_CACHE[key] = tuple(_load_keywords(directory))\n    return list(_KEYWORD_CACHE[key])\n\n\ndef _load_keywords(directory: str = \"\") -> Registry:\n")]),
+    ("benign-keyword-cache-copied-c18", "C18", [(M + "registry.py", "def get_keywords(directory: str = \"\") -> Registry:\n    \"\"\"Get keyword search functions from a directory\"\"\"\n", "_KEYWORD_CACHE: dict = {}\n\n\ndef get_keywords(directory: str = \"\") -> Registry:\n    \"\"\"Get keyword search functions from a directory\"\"\"\n    key = os.path.realpath(directory) if directory else \"\"\n    if key not in _KEYWORD_CACHE:\n        _KEYWORD_CACHE[key] = tuple(_load_keywords(directory))\n    return list(_KEYWORD_CACHE[key])\n\n\ndef _load_keywords(directory: str = \"\") -> Registry:\n")]),
+    ("benign-new-decoder", "C18", [(M + "decoders/reverse.py", "@decoder\ndef find_reverse(", "@decoder\ndef find_nothing(data: bytes) -> list[Node]:\n    \"\"\"A new decoder that never matches\"\"\"\n    return []\n\n\n@decoder\ndef find_reverse(")]),
+    ("benign-decoders-sorted-by-name", "C18", [(M + "registry.py", "    return decoders\n", "    return sorted(decoders, key=lambda f: (f.__module__, f.__name__))\n")]),
+]
+
+
 def apply_mutant(root, edits):
     for rel, old, new in edits:
         p = os.path.join(root, rel)
@@ -130,6 +164,7 @@ def apply_mutant(root, edits):
 
 def run_one(m, scale, jobs, tmp, seed):
     name, prop, edits = m
+    benign = name.startswith("benign-")
     root = tempfile.mkdtemp(prefix=f"mdsim-mut-{name}-", dir=tmp)
     t0 = time.time()
     try:
@@ -145,7 +180,10 @@ def run_one(m, scale, jobs, tmp, seed):
         p = subprocess.run([os.path.join(VERIF, "check"), prop, "--tier", "quick"], capture_output=True, text=True, env=env, timeout=3600)
         viol = [ln for ln in p.stdout.splitlines() if ln.startswith("VIOLATION")]
         detail = [ln for ln in p.stdout.splitlines() if ln.startswith("violation:")]
-        status = "CAUGHT" if (p.returncode == 1 and viol) else f"MISSED(exit={p.returncode})"
+        if benign:
+            status = "SILENT" if (p.returncode == 0 and not viol) else f"FALSE-ALARM(exit={p.returncode})"
+        else:
+            status = "CAUGHT" if (p.returncode == 1 and viol) else f"MISSED(exit={p.returncode})"
         return name, prop, status, (detail[0][:300] if detail else p.stdout[-400:]), time.time() - t0
     finally:
         shutil.rmtree(root, ignore_errors=True)
@@ -159,16 +197,16 @@ def main():
     ap.add_argument("--parallel", type=int, default=2)
     ap.add_argument("--seed", type=int, default=20261003)
     a = ap.parse_args()
-    todo = [m for m in MUTANTS if not a.only or any(m[0].startswith(x) or m[1] == x for x in a.only.split(","))]
+    todo = [m for m in MUTANTS + BENIGN if not a.only or any(m[0].startswith(x) or m[1] == x for x in a.only.split(","))]
     tmp = os.environ.get("VERIF_TMP", "/tmp")
     missed = 0
     with ThreadPoolExecutor(a.parallel) as ex:
         for name, prop, status, detail, dt in ex.map(lambda m: run_one(m, a.scale, a.jobs, tmp, a.seed), todo):
             print(f"{status:14s} {prop} {name:40s} {dt:6.1f}s  {detail}")
             sys.stdout.flush()
-            if status != "CAUGHT":
+            if status not in ("CAUGHT", "SILENT"):
                 missed += 1
-    print(f"{len(todo) - missed}/{len(todo)} mutants caught")
+    print(f"{len(todo) - missed}/{len(todo)} as expected (mutants caught, benign changes silent)")
     sys.exit(1 if missed else 0)
 
 
